@@ -78,6 +78,36 @@ def constants():
 
     t += ("/-- `PsbtIn.serialize`: emission order of the field types (256 = the `unknown` records) -/\n"
           f"def PSBT_IN_ORDER : List Nat := {order(psbt_in._SERIALIZED_FIELDS)}\n")
+    # typed layer of PsbtIn: the tables the parser and the serializer are driven by
+    name_type = {name: type_[0] for type_, name, _ in psbt_in._SERIALIZED_FIELDS if name != "unknown"}
+
+    def types_of(names, what):
+        missing = [n for n in names if n not in name_type]
+        if missing:
+            raise ValueError(f"{what}: fields without a type marker: {missing}")
+        return sorted(name_type[n] for n in names)
+
+    def lst(xs):
+        return "[" + ", ".join(str(x) for x in xs) + "]"
+
+    t += f"/-- `_WHOLE_VALUE_FIELDS`: one record per field, key = the type byte alone -/\ndef PSBT_IN_WHOLE : List Nat := {lst(sorted(k[0] for k in psbt_in._WHOLE_VALUE_FIELDS))}\n"
+    t += f"/-- `_KEY_DATA_FIELDS`: one record per key data -/\ndef PSBT_IN_KEYED : List Nat := {lst(sorted(k[0] for k in psbt_in._KEY_DATA_FIELDS))}\n"
+    t += f"/-- `_V2_FIELDS`: refused when parsing a version 0 input -/\ndef PSBT_IN_V2 : List Nat := {lst(sorted(k[0] for k in psbt_in._V2_FIELDS))}\n"
+    t += f"/-- `_PRESENT_IF_NOT_NONE`: written whenever present, whatever the value -/\ndef PSBT_IN_PRESENT_IF_NOT_NONE : List Nat := {lst(types_of(psbt_in._PRESENT_IF_NOT_NONE, '_PRESENT_IF_NOT_NONE'))}\n"
+    t += f"/-- `_DROPPED_ONCE_FINALIZED` -/\ndef PSBT_IN_DROPPED_ONCE_FINALIZED : List Nat := {lst(types_of(psbt_in._DROPPED_ONCE_FINALIZED, '_DROPPED_ONCE_FINALIZED'))}\n"
+    def by_fn(table, idx, fn_name):
+        return sorted(k[0] for k, v in table.items() if getattr(v[idx], "__qualname__", getattr(v[idx], "__name__", "")) == fn_name)
+
+    t += f"/-- whole-value fields read by `_deserialize_uint32` -/\ndef PSBT_IN_UINT32 : List Nat := {lst(by_fn(psbt_in._WHOLE_VALUE_FIELDS, 2, '_deserialize_uint32'))}\n"
+    t += f"/-- whole-value fields read by `_deserialize_previous_tx_id` -/\ndef PSBT_IN_TXID : List Nat := {lst(by_fn(psbt_in._WHOLE_VALUE_FIELDS, 2, '_deserialize_previous_tx_id'))}\n"
+    t += f"/-- key-data fields whose value is a `BIP32KeyOrigin` -/\ndef PSBT_IN_KEYORIGIN : List Nat := {lst(by_fn(psbt_in._KEY_DATA_FIELDS, 1, 'BIP32KeyOrigin.parse'))}\n"
+    t += f"/-- key-data fields read by `parse_leaf_script` -/\ndef PSBT_IN_LEAF : List Nat := {lst(by_fn(psbt_in._KEY_DATA_FIELDS, 1, 'parse_leaf_script'))}\n"
+    t += f"/-- key-data fields read by `parse_taproot_bip32` -/\ndef PSBT_IN_TAPBIP32 : List Nat := {lst(by_fn(psbt_in._KEY_DATA_FIELDS, 1, 'parse_taproot_bip32'))}\n"
+    t += f"/-- key-data fields read by `parse_musig2_participant_pub_keys` -/\ndef PSBT_IN_MUSIG : List Nat := {lst(by_fn(psbt_in._KEY_DATA_FIELDS, 1, 'parse_musig2_participant_pub_keys'))}\n"
+    t += f"def PSBT_IN_FINAL_SCRIPTSIG : Nat := {psbt_in.PSBT_IN_FINAL_SCRIPTSIG[0]}\n"
+    t += f"def PSBT_IN_FINAL_SCRIPTWITNESS : Nat := {psbt_in.PSBT_IN_FINAL_SCRIPTWITNESS[0]}\n"
+    t += f"def PSBT_IN_NON_WITNESS_UTXO : Nat := {psbt_in.PSBT_IN_NON_WITNESS_UTXO[0]}\n"
+    t += f"def PSBT_IN_WITNESS_UTXO : Nat := {psbt_in.PSBT_IN_WITNESS_UTXO[0]}\n"
     return t
 
 
